@@ -61,7 +61,9 @@ def run(ctx):
     # ---- authorization header -----------------------------------------------------------------------------
     ctx.rule("C16.auth_header", "authorization_header per AuthScheme: None/…Optional -> Bearer header iff a token is available; AccessToken/AppserviceToken -> required (NeedsAuthentication); ServerSignatures -> none")
     f = w.fn(API + "metadata::Metadata::authorization_header")
-    dexa = D.Dex(w.lookup, adt_discr=w.adt_discr, ctors=w.ctors, inline=lambda n: "{closure" in n)
+    MD = API + "metadata::"
+    dexa = D.Dex(w.lookup, adt_discr=w.adt_discr, ctors=w.ctors,
+                 inline=lambda n: "{closure" in n or (n.startswith(MD) and "::" not in n[len(MD):] and "<" not in n[len(MD):]))   # + private free helpers
     ps = dexa.paths(f, [D.sym("self"), D.sym("token")])
     table = {}
     for p in ps:
@@ -229,7 +231,8 @@ def path_selection(ctx, w):
     f = w.fn(P + "versioning_decision_for")
 
     def quant(atom_txt):
-        m = re.match(r"^Iterator::(any|all)\(slice::iter\(versions\), closure\[(.+?)\]\{_ref__version=(.+)\}\)$", atom_txt)
+        # the inner closure captures exactly one value (the version compared against), whatever the variable is called
+        m = re.match(r"^Iterator::(any|all)\(slice::iter\(versions\), closure\[(.+?)\]\{\w+=(.+)\}\)$", atom_txt)
         if not m:
             return None
         clo = w.lookup(m.group(2))
